@@ -78,3 +78,6 @@ mod fft;
 mod proof_system;
 
 pub mod prelude;
+
+#[cfg(all(plonk_verif, feature = "alloc"))]
+pub mod verif;
